@@ -756,3 +756,216 @@ Definition sk_store_result : list ev :=
    Call "group";
    Call "save_part";
    IfE].
+
+Definition sk_add_to_store : list ev :=
+  [Rd "value";
+   IfB;
+   Ret;
+   Else;
+   IfE;
+   Rd "value";
+   Rd "reverse_map";
+   IfB;
+   Rd "value";
+   Rd "reverse_map";
+   Ret;
+   Else;
+   IfE;
+   Rd "idx";
+   IfB;
+   Rd "value";
+   Call "allocate_next";
+   Wr "idx";
+   Else;
+   IfE;
+   Rd "idx";
+   Rd "value";
+   Wr "reverse_map";
+   Rd "idx";
+   Ret].
+
+Definition sk_allocate_next : list ev :=
+  [Call "scan_data";
+   LoopB;
+   Rd "value";
+   IfB;
+   Ret;
+   Else;
+   IfE;
+   LoopE;
+   Rd "allocations";
+   IfB;
+   Rd "allocations";
+   LoopB;
+   Rd "data";
+   IfB;
+   Break;
+   Else;
+   IfE;
+   LoopE;
+   RaiseE "ResultStoreException";
+   Else;
+   Rd "data";
+   IfE;
+   Rd "value";
+   Wr "data";
+   Ret].
+
+Definition sk_allocations : list ev :=
+  [IfB;
+   Ret;
+   Else;
+   IfE;
+   Rd "current_block";
+   IfB;
+   Rd "bsize";
+   Call "preallocator";
+   Wr "current_block";
+   Else;
+   Rd "data";
+   Rd "data";
+   Rd "bsize";
+   Rd "current_block";
+   Rd "data";
+   IfB;
+   Rd "bsize";
+   Call "preallocator";
+   Wr "current_block";
+   Else;
+   IfE;
+   IfE;
+   Rd "current_block";
+   Ret].
+
+Definition sk_store_add : list ev :=
+  [Rd "value_store";
+   Call "add_to_store";
+   Rd "tag_store";
+   Call "add_to_store";
+   Rd "sequence_id_store";
+   Call "add_to_store";
+   Ret].
+
+Definition sk_save_part : list ev :=
+  [Rd "value";
+   IfB;
+   Rd "field_info";
+   IfB;
+   Call "index_to_name";
+   Rd "value";
+   Call "ensure_type";
+   Wr "value";
+   Else;
+   IfE;
+   Else;
+   IfE;
+   Rd "value";
+   Call "store_add";
+   IfB;
+   Else;
+   IfE;
+   Call "parts_append"].
+
+Definition sk_get_store_id : list ev :=
+  [Rd "parts";
+   LoopB;
+   IfB;
+   IfB;
+   Continue;
+   Else;
+   IfE;
+   Else;
+   IfB;
+   Continue;
+   Else;
+   IfE;
+   IfE;
+   IfB;
+   Ret;
+   Else;
+   IfE;
+   LoopE;
+   Ret].
+
+Definition sk_result_get : list ev :=
+  [Call "get_store_id";
+   IfB;
+   Rd "store";
+   Ret;
+   Else;
+   IfE;
+   Ret].
+
+Definition sk_collection_add : list ev :=
+  [LoopB;
+   Call "register_store";
+   Call "resolve_source";
+   Rd "by_path";
+   IfB;
+   Wr "by_path";
+   Else;
+   Rd "by_path";
+   IfE;
+   LoopE].
+
+Definition sk_filtered_dir : list ev :=
+  [Wr "groups";
+   LoopB;
+   Call "isfile";
+   IfB;
+   Continue;
+   Else;
+   IfE;
+   IfB;
+   Call "keep";
+   Continue;
+   Else;
+   IfE;
+   Call "endswith_log";
+   IfB;
+   Call "keep";
+   Else;
+   Rd "groups";
+   IfB;
+   Wr "groups";
+   Else;
+   Rd "groups";
+   IfE;
+   IfE;
+   LoopE;
+   Wr "limit";
+   Rd "groups";
+   LoopB;
+   Rd "groups";
+   Call "sorted";
+   Rd "limit";
+   LoopE;
+   Ret].
+
+Definition sk_register : list ev :=
+  [IfB;
+   Rd "search_tags";
+   IfB;
+   Rd "search_tags";
+   IfB;
+   Rd "search_tags";
+   Else;
+   IfE;
+   Else;
+   Wr "search_tags";
+   IfE;
+   Else;
+   IfE;
+   IfB;
+   Else;
+   IfE;
+   Call "expand_path";
+   LoopB;
+   Rd "entries";
+   IfB;
+   Rd "entries";
+   Else;
+   Call "get_source_id";
+   Wr "entries";
+   IfE;
+   LoopE].
